@@ -503,6 +503,9 @@ def main():
                     pr.join()
                     if outp.exists():
                         results.append(json.loads(outp.read_text()))
+                    elif pr.exitcode is not None and pr.exitcode < 0:
+                        # killed by a signal (out-of-memory killer, native crash inside a solver): no verdict for its cases
+                        killed.append(f"{sname}#{s}(signal {-pr.exitcode})")
                     else:
                         harness_errors.append(f"shard {sname}#{s} died without result (exit {pr.exitcode})")
                     del running[i]
@@ -557,7 +560,8 @@ def main():
     if killed:
         for kname in killed:
             ps = per_sub.setdefault(kname.split("#")[0], {"evaluations": 0, "nontrivial_by_label": {}, "inconclusive_by_reason": {}, "known_finding_hits": {}, "distinct_nontrivial": 0})
-            ps["inconclusive_by_reason"]["shard_killed_at_wall_limit"] = ps["inconclusive_by_reason"].get("shard_killed_at_wall_limit", 0) + 1
+            why = "shard_killed_by_signal" if "(signal" in kname else "shard_killed_at_wall_limit"
+            ps["inconclusive_by_reason"][why] = ps["inconclusive_by_reason"].get(why, 0) + 1
     if len(samples) < 3:
         for r in results:
             for s_ in r["samples"]:
